@@ -49,6 +49,8 @@ type csReg struct {
 	Aligned   bool                `json:"aligned"`
 	Canonical bool                `json:"canonical"` // reported ranges sorted, disjoint, non-adjacent, within 1..65535
 	Mixed     bool                `json:"mixed"`     // Contains() disagrees inside one chunk
+	Keys      []string            `json:"keys"`      // representation: the protocols that are keys of AllowedProtocols (sorted)
+	AllowAll  bool                `json:"allowAll"`  // representation: the AllowAll field
 }
 
 type csStep struct {
@@ -77,6 +79,11 @@ func observeReg(cs *verifshim.ConnectionSet, w *world.World, c *world.Conc) csRe
 		r.Pts[pr], r.Names[pr], r.Excl[pr], r.Contains[pr] = []int{}, []string{}, []string{}, []int{}
 	}
 	r.All, r.Empty, r.Str = cs.IsAllConnections(), cs.IsEmpty(), cs.String()
+	r.AllowAll, r.Keys = cs.AllowAll, []string{}
+	for proto := range cs.AllowedProtocols {
+		r.Keys = append(r.Keys, string(proto))
+	}
+	sort.Strings(r.Keys)
 	for proto, prs := range cs.ProtocolsAndPortsMap() {
 		var ranges [][2]int
 		for k, pr := range prs {
